@@ -296,7 +296,7 @@ func init() {
 		ID:        "C18",
 		Level:     "model_checking",
 		Technique: "bounded exhaustive enumeration of programs x gas limits (step boundaries of the ample-gas run) executed on the real interpreter and on go-ethereum v1.12.0 with (i) equivalent full-data recording debug tracers and (ii) each ported tracer next to its upstream original, results compared byte for byte; scenario call trees with failing join points for balance and nesting of the event stream",
-		Rule: "(i) C01's IM/SEQ/ENTRY/EIPS families: full callback streams (copied stack, memory, return data, gas, cost, depth, refund, error text; enter/exit arguments) equal at ample gas and at sampled step-boundary limits; (iii) 17 tracer configurations (structLogger x5, accessListTracer, prestateTracer x2, 4byteTracer, callTracer x3, flatCallTracer x3, muxTracer, noopTracer) port vs upstream, bracketed by the same CaptureTxStart/End, at ample gas and 2 limits; (ii) scenario trees (depth 2 and depth-3 chains) with Aspects bound everywhere and failing answers, 1-3 invocations: start/end, enter/exit, Aspect enter/exit balanced and nested, every instruction reported at the depth of the open frames. non-trivial = distinct (case, limit, tracer) runs whose reference result contains at least one nested frame or an error",
+		Rule: "(i) C01's IM/SEQ/ENTRY/EIPS/SSTORESEQ/SDSEQ/CREATESEQ families: full callback streams (copied stack, memory, return data, gas, cost, depth, refund, error text; enter/exit arguments) equal at ample gas and at sampled step-boundary limits; (iii) 17 tracer configurations (structLogger x5, accessListTracer, prestateTracer x2, 4byteTracer, callTracer x3, flatCallTracer x3, muxTracer, noopTracer) port vs upstream, bracketed by the same CaptureTxStart/End, at ample gas and 2 limits; (ii) scenario trees (depth 2 and depth-3 chains) with Aspects bound everywhere and failing answers, 1-3 invocations: start/end, enter/exit, Aspect enter/exit balanced and nested, every instruction reported at the depth of the open frames. non-trivial = distinct (case, limit, tracer) runs whose reference result contains at least one nested frame or an error",
 		Assumptions: []string{"tracer outputs are compared when no Aspect is bound (the statement's domain for the inherited tracers)"},
 		Bounds: func(t string) map[string]any {
 			o := c18Opts(t)
@@ -312,7 +312,7 @@ func init() {
 					return
 				}
 				sess := sess
-				if family == "SCN" || family == "SSTORESEQ" || family == "SDSEQ" {
+				if family == "SCN" || family == "SSTORESEQ" || family == "SDSEQ" || family == "CREATESEQ" {
 					sess = world.NewSession(cs.Accounts)
 				}
 				// (i) full-data streams
